@@ -198,6 +198,56 @@ def node_start_value(res: Result, fails: list):
                           "real": f"now={now} start={hex(v)}"})
 
 
+def node_handed_out(res: Result, fails: list):
+    """The identifiers a *node* hands out: the hop-by-hop ids of everything it sends on one connection (CER/DWR/DPR and
+    application requests) are pairwise distinct and non-zero, the end-to-end ids of all its requests likewise -- with the
+    connection's counter started close to the node's end-to-end counter (a window of offsets), so that a request numbered
+    from the wrong counter meets one numbered from the right one."""
+    import nodecheck
+    import nodegen
+    from nodecheck import kv
+    e0 = 268435463            # start of the end-to-end counter in the virtual environment
+    cfg = ("NODE host=node.local;realm=realm.local;idle=3;dwa=30;cer=30;cea=30;peer:peer1.x,realm.local,0,0,30,1,0,-,-,-,-;"
+           "peer:peer2.x,realm.local,1,0,30,1,0,-,-,-,-;app:4,1,0,b,0,0+1,-")
+    h = [5000]
+
+    def n():
+        h[0] += 1
+        return h[0]
+    for off in range(-6, 7):
+        rq = "req 0 " + nodegen.ccr(0, 0, "node.local") + " 1"
+        lines = [
+            # an accepted connection: watchdogs, application requests, then the DPR of a graceful stop
+            cfg + " | start fail | acc | rx 1 " + nodegen.cer("peer1.x", "4", n(), n()) + f" | sethbh 1 {e0 + off} | adv 4 | rx 1 " +
+            nodegen.dwa(n(), n()) + f" | {rq} | adv 4 | rx 1 " + nodegen.dwa(n(), n()) + f" | {rq} | stop 0 1",
+            # a dialled one: CER, watchdog, request, DPR
+            cfg + f" | start ok | sethbh 0 {e0 + off} | rx 0 " + nodegen.cea(2001, "peer2.x", n(), n()) + " | adv 4 | rx 0 " +
+            nodegen.dwa(n(), n(), "peer2.x") + f" | {rq} | stop 0 1",
+        ]
+        for line in lines:
+            res.cases += 1
+            res.count("node-handed-out")
+            obs = nodecheck.run_real(line)
+            if obs and obs[0].startswith("HARNESS-"):
+                fails.append({"what": "scenario could not be driven: " + obs[0], "line": line[:400]})
+                continue
+            per_conn, e2es = {}, []
+            for l in obs:
+                if l.startswith("OUT ") and " R=1 " in l:
+                    d = kv(l)
+                    per_conn.setdefault(l.split(" ")[1], []).append((int(d["hbh"]), d["cmd"]))
+                    e2es.append((int(d["e2e"]), d["cmd"]))
+            for c, ids in per_conn.items():
+                vals = [v for v, _ in ids]
+                if 0 in vals or len(set(vals)) != len(vals):
+                    fails.append({"what": "hop-by-hop identifiers of the requests a node sent on one connection are not pairwise "
+                                          "distinct and non-zero", "line": line[:900], "real": f"{c}: {ids}", "kind": "node"})
+            vals = [v for v, _ in e2es]
+            if 0 in vals or len(set(vals)) != len(vals):
+                fails.append({"what": "end-to-end identifiers of the requests a node sent are not pairwise distinct and non-zero",
+                              "line": line[:900], "real": str(e2es), "kind": "node"})
+
+
 # ------------------------------------------------------------- schedules part
 def make_threads(which: str, start: int, nthr: int, k: int, steppers):
     h = helpers()
@@ -313,6 +363,7 @@ def run(res: Result, tier: str, seed: int):
     fails, div = [], []
     sequential(res, rng, tier, fails, div)
     node_start_value(res, fails)
+    node_handed_out(res, fails)
     schedules(res, rng, tier, fails, div)
     for f in fails:
         if f.get("kind") == "schedule" and "threads_replay" not in f:
